@@ -8,6 +8,8 @@ type HarnessDef struct {
 	Quick    map[string]int
 	Thorough map[string]int
 	Share    float64 // share of the property's time budget
+	// ThoroughOnly entries run in the thorough tier only; thorough parameters are layered over the quick ones
+	ThoroughOnly bool
 }
 
 type PropDef struct {
@@ -19,10 +21,10 @@ type PropDef struct {
 
 var commonAssumptions = []string{
 	"code outside module github.com/JunNishimura/Goit is modelled by intrinsics written against its documented contract (fmt, strings, strconv, bytes, bufio, io, encoding/hex, encoding/binary, regexp via regexp/syntax + symbolic Pike NFA, sort.Slice as insertion sort through the program's less closure, os/filepath over an in-memory POSIX-like file system, time, cobra/pflag flag registration)",
-	"SHA-1 is an uninterpreted function with functional-consistency and collision-freedom axioms between all applications on a path; concrete inputs use the real digest",
+	"SHA-1 is modelled as an injective function: concrete inputs get the real digest, a symbolic input gets a fresh constant unless it equals an earlier input (then that input's digest; a later concrete input is case-split against earlier symbolic ones), so functional consistency and collision freedom hold between all applications on a path; harnesses run with freeDigest=1 use free digest bytes with Ackermann axioms instead",
 	"zlib is modelled as an injective container: a stream written by the model decodes to its payload; other bytes decode to an error or to arbitrary plaintext",
 	"string and slice lengths are concrete on each path; every input size is an explicit choice inside the stated bound; symbolic non-ASCII bytes in regexp subjects are treated as one non-ASCII rune each",
-	"solver: z3 4.8.12; `unknown`/timeouts are counted as undischarged and never as success",
+	"solver: z3 5.1.0 (z3-new) when on PATH, else z3 4.8.12; thorough tier re-decides every assertion VC with cvc5 and every 10th with the other z3, and every 4th pruned branch side with cvc5; `unknown`/timeouts/disagreements are counted as undischarged or unproved and never as success",
 }
 
 var registry = map[string]*PropDef{
@@ -82,7 +84,9 @@ var registry = map[string]*PropDef{
 		Harnesses: []HarnessDef{
 			{Pkg: "cmd", Func: "VP_C07_Diff", Quick: map[string]int{"pool": 2, "depth": 2, "complen": 2, "symhash": 0}, Thorough: map[string]int{"pool": 3, "depth": 2, "complen": 2, "symhash": 0}, Share: 1.00},
 			{Pkg: "cmd", Func: "VP_C07_ResetStatus", Quick: map[string]int{"depth": 2, "complen": 2, "deepcomplen": 1, "concontent": 1, "asym": 1}, Thorough: map[string]int{"depth": 2, "complen": 2, "concontent": 1}, Share: 1.00},
-			{Pkg: "cmd", Func: "VP_C07_StatusStaged", Quick: map[string]int{"tracked": 1, "depth": 2, "complen": 2}, Thorough: map[string]int{"tracked": 2, "depth": 2, "complen": 2}, Share: 1.00},
+			{Pkg: "cmd", Func: "VP_C07_StatusStaged", Quick: map[string]int{"tracked": 1, "depth": 2, "complen": 2}, Thorough: map[string]int{"tracked": 1, "depth": 2, "complen": 2}, Share: 1.00},
+			{Pkg: "cmd", Func: "VP_C07_StatusStaged", Quick: map[string]int{"tracked": 2, "depth": 1, "complen": 1, "symfiles": 1, "smallcontent": 1}, Thorough: map[string]int{"tracked": 2, "depth": 2, "complen": 1, "symfiles": 1, "smallcontent": 1}, Share: 1.00},
+			{Pkg: "cmd", Func: "VP_C07_StatusStaged", ThoroughOnly: true, Thorough: map[string]int{"tracked": 2, "depth": 1, "complen": 2, "symfiles": 1, "smallcontent": 1}, Share: 1.00},
 		},
 		QuickBudget: 10 * time.Minute, ThoroughBudget: 45 * time.Minute, Assumptions: commonAssumptions,
 	},
